@@ -61,13 +61,20 @@ def classify_class(src, rc, fmt):
     return "unf"
 
 
-def make_class_files(unc, root):
-    """-> (cfg path, {class: (src, fmt)}) ; raises if a class does not behave as named."""
+def make_class_files(unc, root, enc=None):
+    """-> (cfg path, {class: (src, fmt)}) ; raises if a class does not behave as named.
+    enc: None (ASCII) or a Python codec with BOM ("utf-16"): the same texts in that encoding
+    (classes that depend on a single differing byte are dropped)."""
     os.makedirs(root, exist_ok=True)
     cfg = os.path.join(root, "drv.cfg")
     open(cfg, "wb").write(CFG_TEXT)
     out = {}
     for c, src in CLASS_SRC.items():
+        if enc:
+            if c in ("last", "first"):
+                continue
+            if src and c != "bad":
+                src = src.decode().encode(enc)
         rc, fmt = ref_format(unc, cfg, "probe.c", src, cwd=root)
         got = classify_class(src, rc, fmt)
         if got != c:
